@@ -26,7 +26,9 @@ func (e *Engine) run(init *State) {
 				panic(unsupported("step budget exceeded"))
 			}
 		}
-		if st.dry == nil && !st.infeasible {
+		// A path cut off as infeasible still carries the obligations raised before the cut: the contradiction may
+		// stem from a failed obligation (its goal is assumed once it has been asserted), so they must be decided.
+		if st.dry == nil && (!st.infeasible || hasOblig(st.items)) {
 			npaths++
 			if npaths > e.maxPaths {
 				panic(unsupported(fmt.Sprintf("path budget exceeded (%d)", e.maxPaths)))
@@ -740,6 +742,11 @@ func (e *Engine) makeIface(st *State, x Val, from types.Type, to types.Type) Val
 	}
 	box, unbox, id := e.ifaceBox(from)
 	r := app(box, x.T)
+	if hasBound(r) {
+		// boxed term under a binder: the instance fact cannot be stated, use the (keyed) quantified form
+		srt := e.d.SortOf(from)
+		e.d.axiomKeyed(fmt.Sprintf("(forall ((bx %s)) (! (and (= (%s (%s bx)) bx) (= (ityp (%s bx)) %d) (not (= (%s bx) inil))) :pattern ((%s bx))))", srt, unbox, box, box, id, box, box), box)
+	}
 	e.fact(st, "box:"+r, fmt.Sprintf("(and (= (%s %s) %s) (= (ityp %s) %d) (not (= %s inil)))", unbox, r, x.T, r, id, r))
 	res := term(r, SIface, to)
 	bx := x
@@ -1042,4 +1049,13 @@ func (e *Engine) localStructOK(a *ssa.Alloc) bool {
 	ok := okAddr(a, t)
 	e.localOK[a] = ok
 	return ok
+}
+
+func hasOblig(items []Item) bool {
+	for _, it := range items {
+		if it.Kind == ItOblig {
+			return true
+		}
+	}
+	return false
 }
